@@ -1167,12 +1167,11 @@ impl MetaDirective {
     }
 
     pub(crate) fn argument_sdl(&self, argument: &MetaInputValue) -> String {
-        let argument_default = match &argument.default_value {
-            Some(default) => format!(" = {default}"),
-            None => "".to_string(),
-        };
-
-        format!("{}: {}{}", argument.name, argument.ty, argument_default)
+        // same writer as field arguments, so a deprecated argument keeps its
+        // `@deprecated` marker
+        let mut sdl = String::new();
+        self::export_sdl::write_input_value(&mut sdl, argument);
+        sdl
     }
 }
 
